@@ -27,6 +27,9 @@ TYPES = [
     "Literal['a', 'b', 'c']",
     "Literal['x-y', 'p q']",
     "Literal[1, 2]",
+    "Literal['a']",
+    # a type whose rendered line is wider than the wrap width
+    "Literal['member_one', 'member_two', 'member_three', 'member_four', 'member_five', 'member_six', 'member_seven', 'member_eight']",
     "List[str]",
     "List[int]",
     "Union[int, str]",
@@ -57,7 +60,7 @@ def defaults_for(t):
     if t == "Literal[1, 2]":
         d += [("int", 2)]
     elif t and t.startswith("Literal["):
-        d += [("str", "x-y" if "x-y" in t else "a")]
+        d += [("str", "x-y" if "x-y" in t else "member_one" if "member_one" in t else "a")]
     if b == "str":
         d += [("strspace", "a b"), ("emptystr", ""), ("strdot", "a.b"), ("strquote", 'say "hi"'), ("strapos_dot", "don't panic. retry"), ("strquote_dot", 'say "hi". bye')]
     if b == "bool":
@@ -135,6 +138,7 @@ RETURNS = [
     ("ret", OrderedDict((("doc", "the result"), ("typ", "int")))),
     ("retdef", OrderedDict((("doc", "the result"), ("typ", "int"), ("default", 7)))),
     ("retstr", OrderedDict((("doc", "the result"), ("typ", "str")))),
+    ("retlong", OrderedDict((("doc", "the result that is described at considerable length so that the emitted line certainly exceeds the wrap width of one hundred columns"), ("typ", "int")))),
 ]
 
 HEADERS = [("one", "Summary line."), ("two", "Summary line.\n\nLonger description of the thing\nover two lines.")]
